@@ -198,9 +198,11 @@ def pytest_configure(config):
 
 
 def is_xfail(request):
-    if not "xfail" in request.keywords:
+    # request.keywords also contains the names of the parent nodes
+    # (a directory called "xfail"), the marker has to be looked up
+    xfail = request.node.get_closest_marker("xfail")
+    if xfail is None:
         return False
-    xfail = request.keywords["xfail"]
     if xfail.args and xfail.args[0] == False:
         return False
     return True
